@@ -69,7 +69,8 @@ Theorem corr_implies_market_oracle : forall c r, corr_b c = true -> In r (c_runs
   | Some _ => is_prefix (market_codes (r_log r)) (c_ds c) = true
   end.
 Proof.
-  intros c r Hc Hin. unfold corr_b in Hc. rewrite forallb_forall in Hc.
+  intros c r Hc Hin. unfold corr_b in Hc. apply andb_true_iff in Hc. destruct Hc as [Hc _].
+  rewrite forallb_forall in Hc.
   pose proof (corr_run_markets _ _ _ (Hc r Hin)) as H.
   destruct (c_fatal c).
   - destruct H as [ds2 Hd]. rewrite Hd. apply is_prefix_app.
